@@ -248,6 +248,12 @@ func (e *Engine) verifyMany(keys []string, withLemmas bool, timeoutS int, thorou
 	// keep SMT files of failures only
 	keep := filepath.Join(verifRoot, "replays", "smt")
 	for _, o := range rs.obls {
+		if keepAllDir != "" && o.SMTFile != "" {
+			os.MkdirAll(keepAllDir, 0o755)
+			if data, err := os.ReadFile(o.SMTFile); err == nil {
+				os.WriteFile(filepath.Join(keepAllDir, sanitize(o.Name)+".smt2"), data, 0o644)
+			}
+		}
 		if !oblOK(o) && o.SMTFile != "" {
 			os.MkdirAll(keep, 0o755)
 			dst := filepath.Join(keep, sanitize(o.Name)+".smt2")
@@ -285,6 +291,8 @@ func oblOK(o *Obligation) bool {
 	return o.Status == "unsat"
 }
 
+var keepAllDir string
+
 func cmdFunc(args []string) int {
 	fs := flag.NewFlagSet("func", flag.ExitOnError)
 	prop := fs.String("p", "*", "property filter")
@@ -294,7 +302,9 @@ func cmdFunc(args []string) int {
 	fs.Parse(reorder(args))
 	e := load()
 	e.prop = *prop
-	_ = keep
+	if *keep {
+		keepAllDir = "/tmp/govc_keep" // debugging aid only; nothing registered depends on it
+	}
 	keys := fs.Args()
 	rs := e.verifyMany(keys, false, *timeout, false)
 	return report(rs, *verbose)
